@@ -21,7 +21,7 @@ var commonAssume = []string{
 }
 
 func allChecks() []*CheckDef {
-	return []*CheckDef{checkC02(), checkC03(), checkC12(), checkC13(), checkC14(), checkC09(), checkC11(), checkC20(), checkC17()}
+	return []*CheckDef{checkC02(), checkC03(), checkC12(), checkC13(), checkC14(), checkC09(), checkC11(), checkC20(), checkC17(), checkC16()}
 }
 
 func checkC03() *CheckDef {
@@ -136,7 +136,11 @@ func allocLimit(params map[string]int) (uint64, uint64) {
 	if n == 0 {
 		n = 64
 	}
-	return uint64(k0Alloc + 128*n), uint64(2*k0Alloc + 256*n)
+	k0 := k0Alloc
+	if params["frame"] == 1 {
+		k0 = 10<<20 + 4096 // documented _fastPathFrameSize of the frame reader
+	}
+	return uint64(k0 + 128*n), uint64(2*k0 + 256*n)
 }
 
 func checkC13() *CheckDef {
@@ -149,7 +153,7 @@ func checkC13() *CheckDef {
 	}
 	return &CheckDef{
 		ID:   "C13",
-		Pkgs: []PkgDef{pkgBinary},
+		Pkgs: []PkgDef{pkgBinary, pkgFrame},
 		Harnesses: func(tier string) []*sym.HarnessConfig {
 			b := bounds(tier)
 			var out []*sym.HarnessConfig
@@ -163,6 +167,10 @@ func checkC13() *CheckDef {
 				out = append(out, &sym.HarnessConfig{Name: "h13b", Pkg: binPkg, Params: map[string]int{"api": api, "depth": b.depth, "budget": b.budget, "k": b.k, "bin": b.bin},
 					Budget: 2000000, BigLim: 48, BudgetIsViolation: true, AllocLimit: allocLimit})
 			}
+			for n := 0; n <= b.n; n++ {
+				out = append(out, &sym.HarnessConfig{Name: "h13f", Pkg: framePkg, Params: map[string]int{"n": n, "frame": 1},
+					Budget: 300000 + 30000*n, BigLim: b.n + 2, BudgetIsViolation: true, AllocLimit: allocLimit})
+			}
 			out = append(out, &sym.HarnessConfig{Name: "h13_witness", Pkg: binPkg, Params: map[string]int{"n": 2, "api": 0}, ExpectViolation: true})
 			return out
 		},
@@ -174,7 +182,8 @@ func checkC13() *CheckDef {
 				"length_field_templates":      map[string]int{"depth": b.depth, "nodes": b.budget, "container_len": b.k, "binary_len": b.bin},
 				"alloc_bound":                 "each request <= 1MiB+4KiB+128*N bytes, path total <= 2x that",
 				"work_bound":                  "calls into the underlying reader <= 64+32*N; interpreter steps <= 300000+30000*N",
-				"outside":                     "constant factors; GC; generated-code deserializers (C13 generated part not built yet); frame reader (see h13f)",
+				"frame_reader":                "frame.Reader.Read on arbitrary bytes; fixed constant 10MiB+4KiB (its documented fast-path size)",
+				"outside":                     "constant factors; GC; generated-code deserializers (generated-code pipeline not built yet)",
 			}
 		},
 		Assume: commonAssume,
@@ -336,7 +345,7 @@ var pkgGen17 = PkgDef{Path: genPkg, Dir: "gen", Name: "gen", Files: []string{"ge
 	{File: "generate.go", Old: "func mergeFiles(", New: "var _ os.FileMode\n\nfunc mergeFiles(", Count: 1},
 }}
 
-var pkgIntPlugin = PkgDef{Path: intPluginPkg, Dir: "internal/plugin", Name: "plugin", Files: []string{"internal_plugin/zz_export.go"}}
+var pkgIntPlugin = PkgDef{Path: intPluginPkg, Dir: "internal/plugin", Name: "plugin", Files: []string{"internal_plugin/zz_export.go", "internal_plugin/zz_h16a.go"}}
 
 func checkC17() *CheckDef {
 	type bnd struct {
@@ -371,6 +380,47 @@ func checkC17() *CheckDef {
 				"faults": "none / core generator / each plugin", "map_iteration": "all orders", "plugin_order": "all orders (concurrent.Range modelled sequentially in every order)",
 				"stubs": "generateModule (template expansion) replaced by a stub with the same path computation; os.MkdirAll/os.WriteFile replaced by recorders (textual redirection of the current gen/generate.go, used for symbolic run and native replay alike)",
 				"outside": "real file-system effects, failures inside the write loop, main.go ancestry checks, handshake failures (C16)",
+			}
+		},
+		Assume: commonAssume,
+	}
+}
+
+const framePkg = "go.uber.org/thriftrw/internal/frame"
+const pluginPkg = "go.uber.org/thriftrw/plugin"
+
+var pkgFrame = PkgDef{Path: framePkg, Dir: "internal/frame", Name: "frame", Files: []string{"internal_frame/zz_h16b.go"}}
+var pkgPlugin = PkgDef{Path: pluginPkg, Dir: "plugin", Name: "plugin", Files: []string{"plugin/zz_h16c.go"}}
+
+func checkC16() *CheckDef {
+	type bnd struct{ l, lf, free int }
+	bounds := func(tier string) bnd {
+		if tier == "thorough" {
+			return bnd{l: 3, lf: 4, free: 3}
+		}
+		return bnd{l: 2, lf: 2, free: 2}
+	}
+	return &CheckDef{
+		ID:   "C16",
+		Pkgs: []PkgDef{pkgIntPlugin, pkgFrame, pkgPlugin},
+		Harnesses: func(tier string) []*sym.HarnessConfig {
+			b := bounds(tier)
+			var out []*sym.HarnessConfig
+			for l := 1; l <= b.l; l++ {
+				out = append(out, &sym.HarnessConfig{Name: "h16a", Pkg: intPluginPkg, Params: map[string]int{"l": l}, Budget: 5000000, BigLim: 64})
+				out = append(out, &sym.HarnessConfig{Name: "h16c", Pkg: pluginPkg, Params: map[string]int{"l": l}, Budget: 5000000, BigLim: 64})
+			}
+			out = append(out, &sym.HarnessConfig{Name: "h16b", Pkg: framePkg, Params: map[string]int{"l": b.lf, "free": b.free}, Budget: 5000000, BigLim: 16})
+			out = append(out, &sym.HarnessConfig{Name: "h16_witness", Pkg: intPluginPkg, Params: map[string]int{"l": 1}, BigLim: 64, ExpectViolation: true})
+			return out
+		},
+		Bounds: func(tier string) map[string]interface{} {
+			b := bounds(tier)
+			return map[string]interface{}{
+				"handshake_reply": fmt.Sprintf("envelope type 0..127, plugin name (%d bytes), API version (4 bytes), <=2 features: all symbolic; plus truncation at every offset", b.l),
+				"frames":          fmt.Sprintf("two frames of <= %d symbolic bytes, first %d reads arbitrarily segmented (incl. one zero-length read), truncation at every offset", b.lf, b.free),
+				"plugin_side":     "plugin.Main over in-memory pipes: handshake then goodbye, symbolic name and seqids, with/without generator",
+				"outside":         "processes, pipes, reaping, exit status, concurrent plugins, early exit, Flag/Flags handle management (not reachable by sequential symbolic execution)",
 			}
 		},
 		Assume: commonAssume,
